@@ -161,7 +161,7 @@ static void case_c04(const drvargs_t *a,long id){
 }
 
 /* ------------------------------------------------------------------ C06 */
-#define C06_MAXENV 600
+#define C06_MAXENV 2000
 static struct { char key[48]; double v; } env06[C06_MAXENV]; static int nenv06=-1;
 static void env06_load(const char *path){
   nenv06=0; FILE *f=path?fopen(path,"r"):NULL; if(!f) return;
@@ -183,12 +183,12 @@ static void case_c06(const drvargs_t *a,long id,const char *envpath){
   static const long rates[]={8000,11025,16000,22050,32000,44100,48000,96000,44100,48000};
   static const int chq[]={1,2,2,6,1,2}; static const int cht[]={1,2,3,4,5,6,8,2,1,2};
   static const float qs[]={-0.1f,0.1f,0.3f,0.5f,0.7f,1.0f};
-  static const int sigs[]={SIG_MULTI,SIG_MULTI,SIG_SWEEP,SIG_NOISE,SIG_CLICKS,SIG_BURSTS};
+  static const int sigs[]={SIG_MULTI,SIG_GATED,SIG_SWEEP,SIG_NOISE,SIG_CLICKS,SIG_BURSTS,SIG_WIDE,SIG_MULTI,SIG_WIDE,SIG_GATED};
   c.rate=rates[id%10]; c.channels=a->thorough?cht[(id/10)%10]:chq[(id/10)%6];
-  c.sig=sigs[(id/7)%6]; c.sigseed=rng_next(&r);
+  c.sig=sigs[(id/7)%10]; c.sigseed=rng_next(&r);
   long N=(long)(c.rate*(0.9+0.5*rng_unit(&r))); if(N>64000)N=64000; if(c.channels>2 && N>40000)N=40000;
   c.nsamples=N; c.chunk=CHUNK_RANDOM;
-  int managed = a->thorough && (id%11==5);
+  int managed = (id%6==5);
   int nq= managed?1:3; int qi[3]; qi[0]=(int)rng_below(&r,2); qi[1]=2+(int)rng_below(&r,2); qi[2]=4+(int)rng_below(&r,2);
   double snr_prev=-1e9; int qprev=-1;
   /* original */
@@ -240,10 +240,15 @@ static void case_c06(const drvargs_t *a,long id,const char *envpath){
       if(bl!=0){ res_viol("C06","misaligned","channel %d: cross-correlation peaks at lag %ld (r=%.3f; %.4g vs %.4g at 0): %s",ch,bl,bn,best,c0,desc); ok=0; }
     }
     /* channel identity (signals with per-channel distinct content) */
-    if(!nonfinite && c.channels>1 && (c.sig==SIG_MULTI||c.sig==SIG_NOISE) && (managed|| qi[k]>=1)){
+    if(!nonfinite && c.channels>1 && (c.sig==SIG_MULTI||c.sig==SIG_NOISE||c.sig==SIG_GATED||c.sig==SIG_WIDE) && (managed|| qi[k]>=1)){
       int lim=c.channels<4?c.channels:4;
       for(int ch=0;ch<lim;ch++){
         double bestv=-1e300; int bi=-1;
+        double eown=dotlag(in[ch],in[ch],N,0), eout=dotlag(pd.pcm[ch],pd.pcm[ch],N,0);
+        if(eown<=0){   /* a digitally silent input channel has nothing to correlate with: it must simply stay (near) silent */
+          if(eout>1e-4*(ssum/c.channels+1e-30)){ res_viol("C06","silent-channel-not-silent","input channel %d is digital silence, output energy %.4g (mean input channel energy %.4g): %s",ch,eout,ssum/c.channels,desc); ok=0; }
+          res_count("silent_channel_checks",1); continue;
+        }
         for(int o=0;o<c.channels;o++){
           double ei=dotlag(in[o],in[o],N,0); if(ei<=0) continue;
           double v=dotlag(in[o],pd.pcm[ch],N,0)/sqrt(ei);
@@ -254,9 +259,9 @@ static void case_c06(const drvargs_t *a,long id,const char *envpath){
       res_count("channel_identity_checks",lim);
     }
     /* quality envelope on band-limited multi-tones */
-    if(c.sig==SIG_MULTI && !nonfinite){
-      if(managed){ double bps=(double)c.br_nom/((double)c.rate*c.channels); snprintf(key,sizeof key,"snr|b%d|abr%d|c%d",rate_band(c.rate),bps<1.2?0:bps<1.6?1:2,c.channels>2?3:c.channels); }
-      else snprintf(key,sizeof key,"snr|b%d|q%d|c%d",rate_band(c.rate),qi[k],c.channels>2?3:c.channels);
+    if((c.sig==SIG_MULTI||c.sig==SIG_GATED||c.sig==SIG_WIDE) && !nonfinite){
+      if(managed){ double bps=(double)c.br_nom/((double)c.rate*c.channels); snprintf(key,sizeof key,"snr|%s|b%d|abr%d|c%d",sig_name(c.sig),rate_band(c.rate),bps<1.2?0:bps<1.6?1:2,c.channels>2?3:c.channels); }
+      else snprintf(key,sizeof key,"snr|%s|b%d|q%d|c%d",sig_name(c.sig),rate_band(c.rate),qi[k],c.channels>2?3:c.channels);
       res_metric(key,snr);
       double lim;
       if(env06_get(key,&lim)){
